@@ -7,8 +7,11 @@ package quic
 // a real datagramQueue and a real retransmissionQueue; the ack source is a stub.
 
 import (
+	"bytes"
 	"context"
 	"encoding/binary"
+	"fmt"
+	"math/rand/v2"
 
 	"github.com/refraction-networking/uquic/internal/ackhandler"
 	"github.com/refraction-networking/uquic/internal/flowcontrol"
@@ -63,6 +66,7 @@ type VerifPackDgFrame struct {
 }
 
 type VerifPackDgPacket struct {
+	pl      payload
 	frames  []ackhandler.Frame
 	sframes []ackhandler.StreamFrame
 	Frames  []VerifPackDgFrame
@@ -86,7 +90,7 @@ func VerifNewPackDg() *VerifPackDg {
 	fr := newFramer(cfc)
 	v := &VerifPackDg{proxy: &verifPackDgFramer{f: fr}, rq: newRetransmissionQueue(), acks: &verifPackDgAcks{}, cfc: cfc, sender: &verifPackDgSender{fr: fr}}
 	v.dq = newDatagramQueue(func() {}, utils.DefaultLogger)
-	v.p = &packetPacker{framer: v.proxy, acks: v.acks, datagramQueue: v.dq, retransmissionQueue: v.rq}
+	v.p = &packetPacker{framer: v.proxy, acks: v.acks, datagramQueue: v.dq, retransmissionQueue: v.rq, rand: *rand.New(rand.NewPCG(1, 2))}
 	return v
 }
 
@@ -160,7 +164,7 @@ func (v *VerifPackDg) Compose(maxPayload int64, ackAllowed, withAck bool) (*Veri
 	}
 	v.proxy.last = nil
 	pl := v.p.composeNextPacket(protocol.ByteCount(maxPayload), false, ackAllowed, monotime.Now(), protocol.Version1)
-	pkt := &VerifPackDgPacket{frames: pl.frames, sframes: pl.streamFrames}
+	pkt := &VerifPackDgPacket{pl: pl, frames: pl.frames, sframes: pl.streamFrames}
 	for _, f := range pl.frames {
 		pkt.Frames = append(pkt.Frames, verifPackDgLog(f))
 	}
@@ -203,4 +207,103 @@ func (v *VerifPackDg) RetxQueue() []VerifPackDgFrame {
 		out = append(out, verifPackDgLog(ackhandler.Frame{Frame: f}))
 	}
 	return out
+}
+
+// SetShuffleSeed seeds the packer's frame shuffle (appendPacketPayload).
+func (v *VerifPackDg) SetShuffleSeed(a uint64) { v.p.rand = *rand.New(rand.NewPCG(a, a^0x5bd1e995)) }
+
+func verifPackDgRepr(f wire.Frame) string {
+	switch x := f.(type) {
+	case *wire.DatagramFrame:
+		return "D" + string(x.Data)
+	case *wire.StreamFrame:
+		return fmt.Sprintf("S%d/%d/%v/%x", x.StreamID, x.Offset, x.Fin, x.Data)
+	case *wire.AckFrame:
+		return fmt.Sprintf("A%v", x.AckRanges)
+	}
+	b, err := f.Append(nil, protocol.Version1)
+	if err != nil {
+		return "E" + err.Error()
+	}
+	return fmt.Sprintf("C%x", b)
+}
+
+// WireCheck serialises the packet's payload with the real appendPacketPayload (including the
+// shuffle of the control frames, on a copy) and parses it back the way Conn.handleFrames does.
+// Returns "" when the parsed frames are the frames the packer was given; otherwise a class
+// ("datagram-modified", "frame-lost", "parse-error", "append-error") and a description.
+func (v *VerifPackDg) WireCheck(p *VerifPackDgPacket) (string, string) {
+	pl := p.pl
+	pl.frames = append([]ackhandler.Frame{}, p.pl.frames...)
+	raw, err := v.p.appendPacketPayload(nil, pl, 0, protocol.Version1)
+	if err != nil {
+		return "append-error", err.Error()
+	}
+	var want, wantDg []string
+	if pl.ack != nil {
+		want = append(want, verifPackDgRepr(pl.ack))
+	}
+	for _, f := range pl.frames {
+		want = append(want, verifPackDgRepr(f.Frame))
+		if d, ok := f.Frame.(*wire.DatagramFrame); ok {
+			wantDg = append(wantDg, string(d.Data))
+		}
+	}
+	for _, f := range pl.streamFrames {
+		want = append(want, verifPackDgRepr(f.Frame))
+	}
+	parser := wire.NewFrameParser(true, true, false)
+	var got, gotDg []string
+	data := raw
+	for len(data) > 0 {
+		typ, l, err := parser.ParseType(data, protocol.Encryption1RTT)
+		if err != nil {
+			if len(bytes.TrimRight(data, "\x00")) == 0 {
+				break
+			}
+			return "parse-error", fmt.Sprintf("%v after %d frames (payload %x)", err, len(got), raw)
+		}
+		data = data[l:]
+		var f wire.Frame
+		var n int
+		switch {
+		case typ.IsStreamFrameType():
+			f, n, err = parser.ParseStreamFrame(typ, data, protocol.Version1)
+		case typ.IsAckFrameType():
+			f, n, err = parser.ParseAckFrame(typ, data, protocol.Encryption1RTT, protocol.Version1)
+		case typ.IsDatagramFrameType():
+			var d *wire.DatagramFrame
+			d, n, err = parser.ParseDatagramFrame(typ, data, protocol.Version1)
+			if err == nil {
+				gotDg = append(gotDg, string(d.Data))
+				f = d
+			}
+		default:
+			f, n, err = parser.ParseLessCommonFrame(typ, data, protocol.Version1)
+		}
+		if err != nil {
+			return "parse-error", fmt.Sprintf("%v after %d frames (payload %x)", err, len(got), raw)
+		}
+		data = data[n:]
+		if f != nil {
+			got = append(got, verifPackDgRepr(f))
+		}
+	}
+	if len(gotDg) != len(wantDg) {
+		return "datagram-modified", fmt.Sprintf("the packet was given %d DATAGRAM frame(s), the peer parses %d", len(wantDg), len(gotDg))
+	}
+	for i := range wantDg {
+		if gotDg[i] != wantDg[i] {
+			return "datagram-modified", fmt.Sprintf("queued datagram of %d bytes is parsed by the peer as a datagram of %d bytes (%d frames given to the packet, %d parsed)", len(wantDg[i]), len(gotDg[i]), len(want), len(got))
+		}
+	}
+	if len(got) != len(want) {
+		return "frame-lost", fmt.Sprintf("%d frames given to the packet, the peer parses %d", len(want), len(got))
+	}
+	for i := range want {
+		if got[i] != want[i] {
+			return "frame-lost", fmt.Sprintf("frame %d of the payload is parsed as %.40q, the packer was given %.40q", i, got[i], want[i])
+		}
+	}
+	return "", ""
 }
